@@ -1031,6 +1031,12 @@ func checkModuleMigrationsWriteNoData(p *Prog, r *Report, kp func(string, string
 				if didM.setters[g] {
 					bad = FuncName(g) + " (DID entry write)"
 				}
+				for _, so := range storeOpsOf(p, g) {
+					// the pnft store is x/nft's: every raw write of pnft code there lands among the class, token and owner records
+					if (so.Op == "Set" || so.Op == "Delete") && InPkgs(so.Fn, "x/pnft") {
+						bad = "a raw " + so.Op + " on the pnft store (in " + FuncName(g) + ")"
+					}
+				}
 				for _, c2 := range callSites(g) {
 					if c2.Callee != nil {
 						if m, ok := isNftKeeperMethod(resolveBound(c2.Callee)); ok {
@@ -1068,4 +1074,15 @@ func sameElementRef(a, b ssa.Value) bool {
 	ga, ok1 := la.X.(*ssa.Global)
 	gb, ok2 := lb.X.(*ssa.Global)
 	return ok1 && ok2 && ga == gb
+}
+
+
+func storeOpsOf(p *Prog, fn *ssa.Function) []StoreOp {
+	if storeOpsByFn == nil {
+		storeOpsByFn = map[*ssa.Function][]StoreOp{}
+		for _, so := range p.StoreOps() {
+			storeOpsByFn[so.Fn] = append(storeOpsByFn[so.Fn], so)
+		}
+	}
+	return storeOpsByFn[fn]
 }
